@@ -83,7 +83,9 @@ SegVerdict(segs, items, d) ==
       m   == Len(si)
       k   == IF m < n THEN m ELSE n
       shown == [i \in 1..m |-> TextOf(si[i].tok)]
-      same(i, j) == SameText(shown[i], segs[j].text, d, segs[j].sid)
+      \* raw: the text is the segment as written in the source (cut independently of the reader): the report shows it as it is,
+      \* empty trailing elements and components included; otherwise texts are compared in canonical form
+      same(i, j) == IF segs[j].raw THEN shown[i] = segs[j].text ELSE SameText(shown[i], segs[j].text, d, segs[j].sid)
       badtext == {i \in 1..k : ~same(i, i)}
       badline == {i \in 1..k : si[i].line # segs[i].line}
       raw == {i \in 1..m : RawMarkup(si[i].tok)}
